@@ -10,9 +10,12 @@ import (
 	"fmt"
 	"math"
 	"os"
+	"sort"
 	"strings"
 	"time"
 
+	"github.com/cube2222/octosql/execution"
+	"github.com/cube2222/octosql/execution/nodes"
 	"github.com/cube2222/octosql/functions"
 	"github.com/cube2222/octosql/octosql"
 	"github.com/cube2222/octosql/outputs/formats"
@@ -247,7 +250,7 @@ func main() {
 		"| CSiteIntDiv (a b : Z) (p : bool) | CSiteDurDiv (a b : Z) (p : bool) | CSiteRepeat (len count : Z) (p : bool)",
 		"| CSiteSubstr2 (len start : Z) (p : bool) | CSiteSubstr3 (len start length : Z) (p : bool)",
 		"| CSiteListIndex (l : list value) (i : Z) (p : bool) | CSiteAggregate (args : list agg_arg) (p : bool)",
-		"| CSiteVarsUsed (e : pexpr) (p : bool) | CSiteCsv (v : value) (p : bool) | CCliRun (id : Z) (crashed : bool).",
+		"| CSiteVarsUsed (e : pexpr) (p : bool) | CSiteCsv (v : value) (p : bool) | CSiteFn (id : Z) (p : bool) | CSiteJoinRetract (ops : list bool) (p : bool) | CCliRun (id : Z) (crashed : bool).",
 		"(* the implementation panics only where the pinned model has a panic site (and the repaired model has none: C07_no_panic_fragment_partial) *)",
 		"Definition c07_tie_run (c : c07_run) : bool :=",
 		"  match c with",
@@ -256,12 +259,14 @@ func main() {
 		"  | CSiteSubstr2 l s p => implb p (is_panic (substr2_pinned l s)) | CSiteSubstr3 l s n p => implb p (is_panic (substr3_pinned l s n))",
 		"  | CSiteListIndex l i p => implb p (is_panic (list_index_pinned l i)) | CSiteAggregate a p => implb p (is_panic (parse_aggregate_pinned a))",
 		"  | CSiteVarsUsed e p => implb p (is_panic (vars_used_pinned e)) | CSiteCsv v p => implb p (is_panic (csv_value_pinned v))",
+		"  | CSiteFn _ _ => true",
+		"  | CSiteJoinRetract ops p => Bool.eqb p (is_panic (join_row_history true [] ops))",
 		"  | CCliRun _ _ => true",
 		"  end.",
 		"Definition c07_spec_run (c : c07_run) : bool :=",
 		"  match c with",
 		"  | CSiteIntDiv _ _ p | CSiteDurDiv _ _ p | CSiteRepeat _ _ p | CSiteSubstr2 _ _ p | CSiteSubstr3 _ _ _ p",
-		"  | CSiteListIndex _ _ p | CSiteAggregate _ p | CSiteVarsUsed _ p | CSiteCsv _ p => c07_spec p",
+		"  | CSiteListIndex _ _ p | CSiteAggregate _ p | CSiteVarsUsed _ p | CSiteCsv _ p | CSiteFn _ p | CSiteJoinRetract _ p => c07_spec p",
 		"  | CCliRun _ crashed => c07_spec crashed",
 		"  end.",
 	}
@@ -272,6 +277,8 @@ func main() {
 		"and token mutations of the tests/scenarios corpus over generated CSV/JSON/lines files (0, negatives, MinInt64, empty lists, rows that differ from the 100-row schema preview), every output format, --optimize on/off; " +
 		"non-trivial = the run got past parsing and typechecking (it executed), or crashed; distinct by full case text"
 
+	boundaryProbes(cf)
+	joinRetractionProbes(cf, rng.Fork(), f.Cases(24, 240))
 	siteProbes(cf, rng, f.Cases(270, 2700))
 	cliSearch(cf, rng, f)
 
@@ -279,4 +286,210 @@ func main() {
 		fmt.Fprintln(os.Stderr, err)
 		os.Exit(2)
 	}
+}
+
+// boundaryProbes: a deterministic part of every run (no random choice): every descriptor of functions.FunctionMap() that has
+// integer argument positions is called with the int64 boundary family 0, 1, -1, MinInt64, MaxInt64, MaxInt64-1, len, len-1,
+// len+1 (len = length of the string / list argument) in EVERY integer position (full cross product), the other positions
+// holding an ordinary value of their type; plus list[index] on lists of length 0..3.  A panic is a failing input.
+func boundaryProbes(cf *lib.CaseFile) {
+	family := func(l int) []int64 {
+		return []int64{0, 1, -1, math.MinInt64, math.MaxInt64, math.MaxInt64 - 1, int64(l), int64(l) - 1, int64(l) + 1}
+	}
+	isIntPos := func(t octosql.Type) bool {
+		return octosql.Int.Is(t) == octosql.TypeRelationIs
+	}
+	ordinary := func(t octosql.Type, str string) (octosql.Value, bool) {
+		switch {
+		case octosql.String.Is(t) == octosql.TypeRelationIs:
+			return octosql.NewString(str), true
+		case octosql.Float.Is(t) == octosql.TypeRelationIs:
+			return octosql.NewFloat(1.5), true
+		case octosql.Boolean.Is(t) == octosql.TypeRelationIs:
+			return octosql.NewBoolean(true), true
+		case octosql.Duration.Is(t) == octosql.TypeRelationIs:
+			return octosql.NewDuration(time.Second), true
+		case octosql.Time.Is(t) == octosql.TypeRelationIs:
+			return octosql.NewTime(time.Unix(1600000000, 0).UTC()), true
+		case octosql.Null.Is(t) == octosql.TypeRelationIs:
+			return octosql.NewNull(), true
+		}
+		return octosql.Value{}, false
+	}
+	id := 0
+	record := func(site string, coq string, args interface{}, p interface{}, class string, inClass bool) {
+		js := map[string]interface{}{"site": site, "args": args, "boundary_family": true, "panicked": p != nil}
+		if coq == "" {
+			coq = fmt.Sprintf("CSiteFn %d", id)
+		}
+		id++
+		idx := cf.Add(fmt.Sprintf("%s %s", coq, lib.CoqBool(p != nil)), js, true)
+		cf.Count("boundary_" + site)
+		if p != nil {
+			js["panic"] = fmt.Sprint(p)
+			if !inClass {
+				class = ""
+			}
+			if class != "" {
+				cf.SetClass(idx, class)
+			}
+			cf.Violation(idx, fmt.Sprintf("%s panicked: %v on %v", site, p, args), class)
+		}
+	}
+	fm := functions.FunctionMap()
+	names := make([]string, 0, len(fm))
+	for name := range fm {
+		names = append(names, name)
+	}
+	sort.Strings(names)
+	for _, name := range names {
+		for di, d := range fm[name].Descriptors {
+			if d.TypeFn != nil || d.Function == nil {
+				continue
+			}
+			var intPos []int
+			for i, t := range d.ArgumentTypes {
+				if isIntPos(t) {
+					intPos = append(intPos, i)
+				}
+			}
+			if len(intPos) == 0 || len(intPos) > 3 {
+				continue
+			}
+			for _, str := range []string{"test", "", "日本語"} {
+				base := make([]octosql.Value, len(d.ArgumentTypes))
+				usable, hasStr := true, false
+				for i, t := range d.ArgumentTypes {
+					if isIntPos(t) {
+						continue
+					}
+					v, ok := ordinary(t, str)
+					if !ok {
+						usable = false
+					}
+					if v.TypeID == octosql.TypeIDString {
+						hasStr = true
+					}
+					base[i] = v
+				}
+				if !usable || (!hasStr && str != "test") {
+					continue
+				}
+				fam := family(len(str))
+				total := 1
+				for range intPos {
+					total *= len(fam)
+				}
+				for combo := 0; combo < total; combo++ {
+					vals := append([]octosql.Value{}, base...)
+					ints := make([]int64, len(intPos))
+					c := combo
+					for k, pos := range intPos {
+						ints[k] = fam[c%len(fam)]
+						c /= len(fam)
+						vals[pos] = octosql.NewInt(ints[k])
+					}
+					// string repetition: a count the runtime would really try to allocate is outside the model (memory)
+					if name == "*" && hasStr && ints[0] > 1<<20 && ints[0] < math.MaxInt64-1 {
+						continue
+					}
+					fn := d.Function
+					p := recovered(func() { fn(vals) })
+					site := fmt.Sprintf("%s#%d", name, di)
+					coq, class, inClass := "", "", false
+					switch {
+					case name == "/" && d.ArgumentTypes[0].TypeID == octosql.TypeIDInt && len(intPos) == 2:
+						coq, class, inClass = fmt.Sprintf("CSiteIntDiv %s %s", lib.Z(ints[0]), lib.Z(ints[1])), "c13-div-zero", ints[1] == 0
+					case name == "/" && d.ArgumentTypes[0].TypeID == octosql.TypeIDDuration && len(intPos) == 1:
+						coq, class, inClass = fmt.Sprintf("CSiteDurDiv %s %s", lib.Z(int64(time.Second)), lib.Z(ints[0])), "c13-div-zero", ints[0] == 0
+					case name == "*" && hasStr:
+						// beyond-memory counts (len*count fits an int but not the machine) are C13's open finding
+						coq, class, inClass = fmt.Sprintf("CSiteRepeat %d %s", len(str), lib.Z(ints[0])), "c13-repeat", ints[0] >= math.MaxInt64-1 && len(str) == 1
+						if inClass {
+							coq = "" // the pinned site model has no memory bound: no tie for this class
+						}
+					case name == "substr" && len(intPos) == 1:
+						coq, class, inClass = fmt.Sprintf("CSiteSubstr2 %d %s", len(str), lib.Z(ints[0])), "c12-substr", ints[0] < 0
+					case name == "substr" && len(intPos) == 2:
+						coq, class, inClass = fmt.Sprintf("CSiteSubstr3 %d %s %s", len(str), lib.Z(ints[0]), lib.Z(ints[1])), "c12-substr", ints[0] < 0 || ints[1] < 0 || ints[0]+ints[1] < ints[0]
+					}
+					record(site, coq, fmt.Sprintf("%v", vals), p, class, inClass)
+				}
+			}
+		}
+	}
+	index := findFn("[]")
+	for m := 0; m <= 3; m++ {
+		l := make([]octosql.Value, m)
+		for j := range l {
+			l[j] = octosql.NewInt(int64(j))
+		}
+		for _, ix := range family(m) {
+			p := recovered(func() { index([]octosql.Value{octosql.NewList(l), octosql.NewInt(ix)}) })
+			record("[]", fmt.Sprintf("CSiteListIndex %s %s", lib.CoqValues(l), lib.Z(ix)), []interface{}{m, ix}, p, "c13-list-index", ix < 0)
+		}
+	}
+}
+
+// joinRetractionProbes: one row's history of insertions and retractions fed into the real StreamJoin / OuterJoin
+// (Model/NoPanic.v join_row_history): the join code does EventTimes[1:] on a retraction, also for a row it does not hold.
+func joinRetractionProbes(cf *lib.CaseFile, r *lib.Rng, n int) {
+	row := []octosql.Value{octosql.NewInt(1), octosql.NewInt(1)}
+	for i := 0; i < n; i++ {
+		m := 1 + r.Intn(5)
+		ops := make([]bool, m)
+		coq := make([]string, m)
+		bal, unmatched := 0, false
+		var evs []lib.Event
+		for k := range ops {
+			ops[k] = r.Chance(2, 5)
+			if i < 4 { // deterministic members of the family: -, +-, +--, -+
+				ops = [][]bool{{true}, {false, true}, {false, true, true}, {true, false}}[i]
+				coq = make([]string, len(ops))
+				break
+			}
+		}
+		for k, retr := range ops {
+			coq[k] = lib.CoqBool(retr)
+			if retr {
+				if bal == 0 {
+					unmatched = true
+				} else {
+					bal--
+				}
+			} else if !unmatched {
+				bal++
+			}
+			evs = append(evs, lib.Event{Rec: execution.NewRecord(row, retr, lib.T(0))})
+		}
+		key := func() []execution.Expression { return []execution.Expression{&colExpr{0}} }
+		var node execution.Node
+		kind := "StreamJoin"
+		if i%2 == 1 {
+			kind = "OuterJoin"
+			node = nodes.NewOuterJoin(&lib.ScriptSource{Events: evs}, &lib.ScriptSource{}, 2, 2, key(), key(), true, false)
+		} else {
+			node = nodes.NewStreamJoin(&lib.ScriptSource{Events: evs}, &lib.ScriptSource{}, key(), key())
+		}
+		_, _, p := lib.RunNode(node)
+		js := map[string]interface{}{"site": "join_retraction", "join": kind, "ops(true=retraction)": ops, "panicked": p != nil}
+		idx := cf.Add(fmt.Sprintf("CSiteJoinRetract %s %s", lib.CoqList(coq), lib.CoqBool(p != nil)), js, p != nil)
+		cf.Count("site_join_retraction")
+		if p != nil {
+			js["panic"] = fmt.Sprint(p)
+			cf.Count("site_panicked_join_retraction")
+			class := ""
+			if unmatched {
+				class = "c18-join-retraction-unmatched"
+				cf.SetClass(idx, class)
+			}
+			cf.Violation(idx, fmt.Sprintf("%s panicked on the row history %v (true = retraction): %v", kind, ops, p), class)
+		}
+	}
+}
+
+type colExpr struct{ i int }
+
+func (c *colExpr) Evaluate(ctx execution.ExecutionContext) (octosql.Value, error) {
+	return ctx.VariableContext.Values[c.i], nil
 }
